@@ -43,9 +43,20 @@ fn main() {
         }
         i += 1;
     }
-    let seed: u64 = std::env::var("VERIF_SEED").ok().and_then(|s| s.trim().parse::<i64>().ok()).map(|v| v as u64).unwrap_or(20251002);
+    let seed: u64 = std::env::var("VERIF_SEED")
+        .ok()
+        .and_then(|s| s.trim().parse::<i64>().ok())
+        .map(|v| v as u64)
+        .unwrap_or(20251002);
     // watchdog: a check that overruns is inconclusive (exit 2), never a violation
-    let limit = std::env::var("VERIF_WATCHDOG_S").ok().and_then(|s| s.parse().ok()).unwrap_or(if tier == Tier::Quick { 1500u64 } else { 6 * 3600 });
+    let limit = std::env::var("VERIF_WATCHDOG_S")
+        .ok()
+        .and_then(|s| s.parse().ok())
+        .unwrap_or(if tier == Tier::Quick {
+            1500u64
+        } else {
+            6 * 3600
+        });
     std::thread::spawn(move || {
         std::thread::sleep(std::time::Duration::from_secs(limit));
         eprintln!("watchdog: time budget of {limit}s exceeded; inconclusive");
@@ -62,10 +73,21 @@ fn main() {
         let vs = props::replay(&id, &ctx, &sub, &v["case"]);
         let mut bad = 0;
         for x in &vs {
-            if ctx.known.contains_key(&x.sig) {
-                println!("KNOWN-FINDING: property={} {} {}", id, x.sig, x.detail.replace('\n', "\\n"));
+            if ctx.known_key(&x.sig).is_some() {
+                println!(
+                    "KNOWN-FINDING: property={} {} {}",
+                    id,
+                    x.sig,
+                    x.detail.replace('\n', "\\n")
+                );
             } else {
-                println!("VIOLATION property={} replay={} signature={} detail={}", id, path, x.sig, x.detail.replace('\n', "\\n"));
+                println!(
+                    "VIOLATION property={} replay={} signature={} detail={}",
+                    id,
+                    path,
+                    x.sig,
+                    x.detail.replace('\n', "\\n")
+                );
                 bad += 1;
             }
         }
@@ -90,9 +112,18 @@ fn probe(args: &[String]) {
         println!("---- text\n{}", text);
         match (swiftmt_verif::lib_api::msg_ops(&mt).parse_block4)(&text) {
             Ok(b) => {
-                println!("---- json\n{}", serde_json::to_string_pretty(&b.json).unwrap());
+                println!(
+                    "---- json\n{}",
+                    serde_json::to_string_pretty(&b.json).unwrap()
+                );
                 println!("---- mt_string\n{}", b.mt_string);
-                println!("---- errs {:?}", b.errs_all.iter().map(|e| e.code.clone()).collect::<Vec<_>>());
+                println!(
+                    "---- errs {:?}",
+                    b.errs_all
+                        .iter()
+                        .map(|e| e.code.clone())
+                        .collect::<Vec<_>>()
+                );
             }
             Err(e) => println!("---- ERR {}", e.text()),
         }
